@@ -19,9 +19,10 @@ EXPLANATION = (
     'handed to the parser holds address strings; (C03.5) range registry keys are written and read with '
     'the same qualification, a missing cell evaluates to BLANK; (C03.6) ranges are expanded row-major from '
     'sorted rows and columns; (C03.7) resolve_address and resolve_ranges both unquote the sheet part with resolve_sheet.'
-    ' (C03.8) the reader, interpreted on an abstract workbook that repeats a formula text on two sheets, gives every cell a formula object bound to its own sheet; (C03.1/C03.3) also: XLFormula built for two sheets from one text, and one reference node resolved under two contexts, carry nothing over.')
+    ' (C03.8) the reader, interpreted on an abstract workbook that repeats a formula text on two sheets, gives every cell a formula object bound to its own sheet; (C03.1/C03.3) also: XLFormula built for two sheets from one text, and one reference node resolved under two contexts, carry nothing over.'
+    ' (C03.9) a reference workbook with three sheets (one title a prefix of another, one with an apostrophe), defined names, $-variants, ranges with empty cells and cross-sheet chains, loaded through the reader path and evaluated as written in both orders against hand-computed values; a second workbook with the names bound elsewhere in the same process.')
 NOT_DECIDED = 'range arithmetic of openpyxl (range_boundaries), values of the cells'
-TRUSTED = ['openpyxl.utils.cell.range_boundaries / get_column_letter behave as documented']
+TRUSTED = ['openpyxl.utils.cell.range_boundaries / get_column_letter behave as documented', 'workbook scenarios: pandas storage of range arrays as row-major rows, numpy on Python numbers (IEEE results, 64-bit integer wrap), dateutil.parser.parse rejecting texts that are no dates, openpyxl address arithmetic, inspect.signature built from the FunctionDef', 'modelled openpyxl workbook (sheetnames, _cells, defined_names)']
 
 WITNESS = [
     # (input, expected output)
